@@ -305,3 +305,14 @@ def c10(ctx):
                 "object), second derivatives and mixed partials must have the value of the model's derivative at every "
                 "assignment where it is defined; the derivative with respect to an absent symbol must be the integer 0")
     simple(ctx, "MC_C10", "Trace_Val", floor=0.3)
+
+
+@plan("C36")
+def c36(ctx):
+    ctx.rule = ("TLC enumerates rational expressions (quotients, negative and fractional powers, sums/products/quotients "
+                "of them) for as_numer_denom, complex-coefficient expressions and functions of complex arguments for "
+                "as_real_imag, trigonometric and hyperbolic expressions for rewrite_as_exp/sin/cos, expand_as_exp and "
+                "trig_to_sqrt (incl. all special angles k*pi/12, k*pi/5, k*pi/8, pi/10), and a mixed pool for "
+                "conjugate; TLC validates n/d = e with no negative exponent or fraction at the top level of n and d, "
+                "re + I*im = e with re and im real at positive assignments, and value preservation of every rewriting")
+    simple(ctx, "MC_C36", "Trace_Val", floor=0.3)
